@@ -234,6 +234,10 @@ def tableArith (op : String) : Except Err ArithOp :=
     | some a => .ok a
     | none => .error (if tgt == "operator.not_" then .typeErr else .unmodelled)
 
+/-- the Name branch refuses a name that is not in the namespace and starts with the extracted prefix (`__`) before
+    it falls back to `getattr(dynamic_fieldtype, id)` — as far as the current source does so -/
+def nameRefused (id : String) : Bool := Gen.nameFallbackRefusesDunder && hasPrefix Gen.nameRefusedPrefix id
+
 /-- One level of `_eval`. -/
 def evalStep (P : Prim) (self : Expr → M PVal) (e : Expr) : M PVal :=
   if !(Gen.evalNodeKinds.contains e.kind) then M.throw .typeErr
@@ -244,6 +248,7 @@ def evalStep (P : Prim) (self : Expr → M PVal) (e : Expr) : M PVal :=
     | .tuple es => do pure (.tuple (← evalList self es))
     | .name id => fun st =>
       if inData st id then (st, .ok ((dataGet st id).getD .none))
+      else if nameRefused id then (st, .error .invalidOp)
       else (M.bind (M.log (.fallback id)) (fun _ => M.lift (P.dynft id))) st
     | .attr v a =>
       if hasPrefix Gen.attrRefusedPrefix a then M.throw .invalidOp
@@ -282,7 +287,8 @@ def flagsOk : Bool :=
   Gen.compareIteratesAllOps && !Gen.compareReadsOnlyFirstOp && !Gen.boolOpCoercesToBool && Gen.boolOpShortCircuits &&
   Gen.callTargetFromStaticTables && Gen.callRefusalPrecedesArgs && !Gen.callWhitelistConsultsLiveNamespace &&
   Gen.allowedCallsFixedAtNamespaceConstruction && Gen.callTargetMustResolveToName && Gen.genexpVarsScoped &&
-  Gen.genexpRefusesShadowing && Gen.attrRefusedBeforeEval && Gen.evalRejectsOtherNodes && Gen.matchesRebuildsNamespace
+  Gen.genexpRefusesShadowing && Gen.attrRefusedBeforeEval && Gen.evalRejectsOtherNodes && Gen.matchesRebuildsNamespace &&
+  Gen.nameFallbackRefusesDunder
 
 def interp (P : Prim) : Nat → Expr → M PVal
   | 0 => fun _ => M.throw .fuel
